@@ -140,7 +140,70 @@ func (fr *Frame) call(st *State, pc Term, ins *ssa.Call) Val {
 			return v
 		}
 	}
+	// external calls may write through pointer arguments: havoc the pointees
+	for i, a := range c.Args {
+		var ptr ssa.Value
+		if mi, ok := a.(*ssa.MakeInterface); ok {
+			if _, isPtr := mi.X.Type().Underlying().(*types.Pointer); isPtr {
+				ptr = mi.X
+			}
+		} else if _, isPtr := a.Type().Underlying().(*types.Pointer); isPtr {
+			ptr = a
+		}
+		if ptr == nil {
+			continue
+		}
+		pv := fr.get(st, ptr)
+		if pv.K != vAddr || pv.NilAddr || pv.R == nil || pv.R.Kind != 0 || len(pv.Path) != 0 {
+			continue
+		}
+		elem := ptr.Type().Underlying().(*types.Pointer).Elem()
+		if e.prov != nil {
+			e.prov.write(e, pv.R, pos, "external call "+callee.String())
+		}
+		nv := e.freshVal(st, "ext_out", elem, "fresh", pc)
+		st.cell[pv.R] = nv
+		name := callee.String()
+		if (name == "encoding/json.Unmarshal" || name == "gopkg.in/yaml.v2.Unmarshal") && i == 1 && nv.K != vNone {
+			e.note("assumed: %s stores a plain native value (validAny) into its target", name)
+			e.assumeValidAnyDeep(st, e.toTerm(st, nv))
+		}
+	}
 	return fr.external(st, pc, callee, args, resT, pos)
+}
+
+// assumeValidAnyDeep assumes validAny for every interface{}-typed component of a freshly
+// unmarshalled value (the value itself, or the interface{} fields of a slice of structs).
+func (e *Exec) assumeValidAnyDeep(st *State, t Term) {
+	va := e.p.SpecFuncs["validAny"]
+	if va == nil {
+		return
+	}
+	u := e.p.U
+	if t.Sort == SAny {
+		if a, err := e.specCall(st, va, []Term{t}); err == nil {
+			e.assume(a)
+		}
+		return
+	}
+	if u.IsSlice(t.Sort) {
+		d := u.DT(t.Sort)
+		if ed := u.DT(d.Elem); ed != nil && ed.Kind == "struct" {
+			for fi, f := range ed.Fields {
+				if f.Sort != SAny {
+					continue
+				}
+				e.nfresh++
+				q := Term{fmt.Sprintf("q!%d", e.nfresh), SInt}
+				e.binder++
+				a, err := e.specCall(st, va, []Term{u.Field(u.SIndex(t, q), fi)})
+				e.binder--
+				if err == nil {
+					e.assume(T(SBool, "(forall ((%s Int)) (=> (and (<= 0 %s) (< %s %s)) %s))", q.S, q.S, q.S, u.SLen(t).S, a.S))
+				}
+			}
+		}
+	}
 }
 
 // inline executes the callee body in place.
